@@ -1,4 +1,4 @@
-HOOK_COMMITS = ["d747c05", "verif hook: export piece splitting / substitution / hash pre-image helpers of the linker under build tag verif"]
+HOOK_COMMITS = ["d747c05", "verif hook: export piece splitting / substitution / hash pre-image helpers of the linker under build tag verif", "verif hook: export printUnquotedUTF16 under build tag verif"]
 
 TEXT = {
     "C07": {
@@ -30,6 +30,16 @@ TEXT = {
         "level": "Lean theorem for all byte strings that the percent-escaped data URL emitted for an imported file decodes (WHATWG percent-decode) to exactly the file's bytes and contains no byte the URL parser strips, tied to helpers.EncodeStringAsPercentEscapedDataURL by correspondence. Module-graph semantics (order, live bindings, interop shapes, errors, entry exports) are checked by loading generated graphs natively in Node and as esm/cjs/iife bundles: a search, not a proof.",
         "note": "Trusted: Lean kernel, correspondence harness, Node 20 as native reference. One recorded known finding (evaluation order with --tree-shaking=false).",
         "technique": "Lean 4 proof on hand-written model + differential correspondence; native-vs-bundle Node differential search",
+    },
+    "C01": {
+        "level": "Lean theorem for ALL UTF-16 sequences, quote kinds and option sets that the escaped string/template body printed by esbuild decodes (ECMA-262 SV/TV, written as an executable spec) to exactly the input value, tied to printUnquotedUTF16 by correspondence through a verif-tagged export. Behaviour preservation of whole programs under charset/whitespace/line-limit/format settings is searched with a Node differential, not proved.",
+        "note": "Trusted: Lean kernel, my transcription of the ECMA-262 literal semantics, correspondence harness, UTF-8 encoder, Node 20 as reference semantics.",
+        "technique": "Lean 4 proof on hand-written model + differential correspondence; Node trace differential search",
+    },
+    "C13": {
+        "level": "Lean theorem that every string/template literal body the printer emits is a valid literal body (for all inputs/options), tied by correspondence. Validity of whole outputs, acceptance of every V8-valid input and the fixed-point property are decided by V8 and a second compile over grammar-generated programs: a search.",
+        "note": "Trusted: Lean kernel, correspondence harness, V8 as reference parser (with one cross-checked V8 bug). One recorded known finding (`await` identifier in scripts).",
+        "technique": "Lean 4 proof on hand-written model + differential correspondence; V8 accept/reject + idempotence search",
     },
 }
 
